@@ -373,6 +373,19 @@ func c12Trees(thorough bool) []c12tree {
 		chain[string(long[:i])] = []byte(fmt.Sprintf("v%d", i))
 	}
 	ts = append(ts, c12tree{Name: "prefix-chain-13", Contents: chain})
+	// the same beyond 128 levels: every prefix of a 139-byte key (a proof of such a tree is deeper than the
+	// verifier's depth limit)
+	{
+		c := kv.Contents{}
+		k := make([]byte, 139)
+		for i := range k {
+			k[i] = byte(0x31 + i%7)
+		}
+		for i := 0; i <= len(k); i++ {
+			c[string(k[:i])] = []byte("v")
+		}
+		ts = append(ts, c12tree{Name: "prefix-chain-140", Contents: c})
+	}
 	many := kv.Contents{}
 	cnt := 300
 	if thorough {
@@ -446,7 +459,11 @@ func c12Tree(r *ev.Run, tr c12tree, dir string, otherCp *c12cp) *c12cp {
 		if len(tr.Contents) > 20 {
 			a.Tree = c12tree{Name: tr.Name}
 		}
-		r.Violate(ev.Violation{Engine: "kvmc", Key: fmt.Sprintf("c12 %s cs=%d th=%d %s %s order=%v chunk=%d bit=%d", tr.Name, a.ChunkSize, a.Threads, a.Backend, a.Scenario, a.Order, a.Chunk, a.Bit),
+		tag := ""
+		if strings.Contains(what, "genuine chunk") && strings.Contains(what, "max proof depth exceeded") {
+			tag = " genuine-chunk-beyond-proof-depth-limit"
+		}
+		r.Violate(ev.Violation{Engine: "kvmc", Key: fmt.Sprintf("c12 %s cs=%d th=%d %s %s order=%v chunk=%d bit=%d%s", tr.Name, a.ChunkSize, a.Threads, a.Backend, a.Scenario, a.Order, a.Chunk, a.Bit, tag),
 			What: fmt.Sprintf("tree %s (%d keys), chunk size %d, %d chunker threads, %s, %s (order %v, chunk %d, bit %d, digest fixed %v): %s", tr.Name, len(tr.Contents), a.ChunkSize, a.Threads, a.Backend, a.Scenario, a.Order, a.Chunk, a.Bit, a.FixDigest, what), Artefact: a})
 	}
 	// Size of the one-chunk checkpoint bounds the interesting chunk sizes.
